@@ -6,6 +6,8 @@ cd "$(dirname "$0")/.."
 seeds=("$@"); [ ${#seeds[@]} -eq 0 ] && seeds=(1 2 3)
 git -C /repo diff --quiet || { echo "/repo is dirty; refusing"; exit 2; }
 trap 'git -C /repo checkout -- .' EXIT
+# files a patch CREATES are untracked afterwards: `git checkout -- .` does not remove them
+newfiles() { awk '/^--- \/dev\/null/{getline; sub(/^\+\+\+ b\//,""); print}' "$1"; }
 miss=0
 for d in seeded/*/; do
   id=$(basename $d); prop=${id%%-*}
@@ -21,5 +23,6 @@ for d in seeded/*/; do
   done
   echo "$line"
   git -C /repo checkout -- .
+  for f in $(newfiles "$PWD/${d%/}/patch.diff"); do rm -f "/repo/$f"; done
 done
 echo "missed=$miss"
